@@ -105,7 +105,7 @@ class ModelMixin:
                 return self.fork(T.isstr(v.term))
             return False
         if name in ("dict", "Mapping"):
-            if isinstance(v, (PyDict, MapV, HeapMap)):
+            if isinstance(v, (PyDict, MapV, HeapMap, ArrDict)):
                 return True
             if isinstance(v, Sym) and v.kind == "opt":
                 return True
@@ -611,6 +611,13 @@ class ModelMixin:
             return Sym("bool", T.isparam(self.as_key(args[0])))
         if isinstance(recv, HeapMap):
             return self.heapmap_method(recv, meth, args, kwargs)
+        if isinstance(recv, HeapListRef):
+            return self.heaplist_method(recv, meth, args)
+        if isinstance(recv, ArrDict) and meth == "get":
+            kt = self.as_val(args[0])
+            if self.fork(recv.present[kt]):
+                return Sym("val", recv.vals[kt])
+            return args[1] if len(args) > 1 else None
         if isinstance(recv, Partial) and meth in ("func", "args", "keywords"):
             pass
         raise Unsupported(f"method {meth} of {recv!r}")
@@ -656,21 +663,60 @@ class ModelMixin:
         return present[self.heapmap_key(hm, k)]
 
     def heapmap_get(self, hm, k):
-        present, vals = self.heap[hm.name]
+        st = self.heap[hm.name]
+        present = st[0]
         kt = self.heapmap_key(hm, k)
         self.event("heap-read", hm.name, kt)
         if self.fork(present[kt]):
-            return self.heapmap_wrap(hm, vals[kt])
+            if hm.valkind == "list":
+                return HeapListRef(hm, kt)
+            return self.heapmap_wrap(hm, st[1][kt])
         self.do_raise(self.make_builtin_exc("KeyError", []))
 
     def heapmap_set(self, hm, k, v):
+        if hm.valkind == "list":
+            raise Unsupported("store of a list into a heap list map")
         present, vals = self.heap[hm.name]
         kt = self.heapmap_key(hm, k)
         self.event("heap-write", hm.name, kt)
         self.heap[hm.name] = (z3.Store(present, kt, True), z3.Store(vals, kt, self.heapmap_unwrap(hm, v)))
 
+    def heaplist_method(self, ref, meth, args):
+        present, ln, at = self.heap[ref.hm.name]
+        kt = ref.key
+        if meth == "append":
+            self.event("heap-write", ref.hm.name, kt)
+            n = ln[kt]
+            self.heap[ref.hm.name] = (present, z3.Store(ln, kt, n + 1), z3.Store(at, kt, z3.Store(at[kt], n, self.as_val(args[0]))))
+            return None
+        if meth == "pop" and not args:
+            self.event("heap-write", ref.hm.name, kt)
+            n = ln[kt]
+            if self.fork(n > 0):
+                self.heap[ref.hm.name] = (present, z3.Store(ln, kt, n - 1), at)
+                return Sym("val", at[kt][n - 1])
+            self.do_raise(self.make_builtin_exc("IndexError", []))
+        raise Unsupported(f"heap list method {meth}")
+
     def heapmap_method(self, hm, meth, args, kwargs):
+        if hm.valkind == "list":
+            present, ln, at = self.heap[hm.name]
+            if meth == "setdefault" and isinstance(args[1], PyList) and not args[1].items:
+                kt = self.heapmap_key(hm, args[0])
+                self.event("heap-read", hm.name, kt)
+                if not self.fork(present[kt]):
+                    self.event("heap-write", hm.name, kt)
+                    self.heap[hm.name] = (z3.Store(present, kt, True), z3.Store(ln, kt, 0), at)
+                return HeapListRef(hm, kt)
+            raise Unsupported(f"heap list map method {meth}")
         present, vals = self.heap[hm.name]
+        if meth == "pop" and len(args) == 2:
+            kt = self.heapmap_key(hm, args[0])
+            self.event("heap-write", hm.name, kt)
+            if self.fork(present[kt]):
+                self.heap[hm.name] = (z3.Store(present, kt, False), vals)
+                return self.heapmap_wrap(hm, vals[kt])
+            return args[1]
         if meth == "get":
             kt = self.heapmap_key(hm, args[0])
             self.event("heap-read", hm.name, kt)
